@@ -51,6 +51,8 @@ pub struct Segment {
     pub unexpected: Vec<String>,
     /// True arrival time (global ns) of the last latching broadcast at each device's port 0.
     pub true_arrival: Vec<u64>,
+    /// Make device `.0`'s 32 bit local clock wrap `.1` ns after the latching frame enters the segment.
+    pub wrap_after_latch: Option<(usize, u64)>,
 }
 
 impl Segment {
@@ -73,6 +75,7 @@ impl Segment {
             max_frame: 1514,
             unexpected: Vec::new(),
             true_arrival: vec![0; n],
+            wrap_after_latch: None,
         };
         s.apply_topology_ports();
         s
@@ -196,6 +199,11 @@ impl Segment {
         if latch && d.cmd == wire::CMD_BWR {
             // Time stamps follow the physical path of the frame through the tree.
             let t0 = now + self.topo.link_delay[0];
+            if let Some((dev, delta)) = self.wrap_after_latch {
+                if dev < self.devices.len() {
+                    self.devices[dev].clock_offset = (1i128 << 32) - (t0 + delta) as i128;
+                }
+            }
             self.latch_walk(0, t0);
         }
         let request = d.data.clone();
